@@ -110,6 +110,33 @@ fn varint_edge_start() -> BoxedStrategy<u32> {
     .boxed()
 }
 
+/// Acknowledgements "naming unknown messages": indices far above anything a session of this length can have issued
+/// (a per-client counter that starts at 0), optionally followed by an incomplete varint. Arbitrary bytes are C06's
+/// business; an acknowledgement that happens to name a LIVE message the client never received is a lie of that
+/// client about its own state, not an unknown index, and is not generated.
+pub fn junk_ack_bytes() -> BoxedStrategy<Vec<u8>> {
+    (proptest::collection::vec(20_000u32..60_000, 0..4), any::<bool>())
+        .prop_map(|(vals, dangling)| {
+            let mut out = Vec::new();
+            for mut v in vals {
+                loop {
+                    let b = (v & 0x7f) as u8;
+                    v >>= 7;
+                    if v == 0 {
+                        out.push(b);
+                        break;
+                    }
+                    out.push(b | 0x80);
+                }
+            }
+            if dangling {
+                out.push(0x80);
+            }
+            out
+        })
+        .boxed()
+}
+
 pub fn cfg_strategy(p: Profile, thorough: bool) -> BoxedStrategy<Cfg> {
     let inner = cfg_strategy_inner(p, thorough);
     if matches!(p, Profile::Events | Profile::Events3 | Profile::Sessions | Profile::Auth | Profile::Lossy | Profile::Split | Profile::Tracked) {
@@ -345,7 +372,7 @@ pub fn step_strategy(cfg: &Cfg, p: Profile) -> BoxedStrategy<Step> {
     v.push((w(cfg.auth == 1, 3), (0..clients).prop_map(|client| Step::Authorize { client }).boxed()));
     v.push((
         w(lossy, 1),
-        (0..clients, proptest::collection::vec(any::<u8>(), 0..6)).prop_map(|(client, bytes)| Step::JunkAck { client, bytes }).boxed(),
+        (0..clients, junk_ack_bytes()).prop_map(|(client, bytes)| Step::JunkAck { client, bytes }).boxed(),
     ));
     if cfg.events {
         v.push((if matches!(p, Profile::Events3) { 8 } else { 3 }, (0..clients).prop_map(|client| Step::EventsFirst { client }).boxed()));
